@@ -26,6 +26,9 @@ structure Ops (K : Type) where
 /-- Python `range(a, b)` on naturals -/
 def pyRange (a b : Nat) : List Nat := List.range' a (b - a)
 
+/-- Python `range(a, b)` on integers (possibly negative) -/
+def pyRangeI (a b : Int) : List Int := (List.range (b - a).toNat).map (fun (k : Nat) => a + (k : Int))
+
 /-- Python list indexing `l[i]` (valid indices only; `dflt` is never reached by the code) -/
 def pyGet {α : Type} (l : List α) (i : Nat) (dflt : α) : α := l.getD i dflt
 
